@@ -975,6 +975,9 @@ def main(check, tier_):
         for cls, v in p['viols'].items():
             if cls not in viols or v['run_index'] < viols[cls]['run_index']:
                 viols[cls] = v
+    corpus = run_corpus(check)
+    for cls, v in corpus['viols'].items():
+        viols.setdefault(cls, v)
     det = determinism_selftest(check, master, cfg['det'])
     wall = time.time() - t0
     digest = common.tree_digest()
@@ -1020,6 +1023,7 @@ def main(check, tier_):
         'modes': {k[5:]: v for k, v in st.items() if k.startswith('mode:')},
         'violation_classes': sorted(viols),
         'known_findings_matched': len(klines),
+        'regression_corpus': {'replayed': corpus['replayed'], 'reproduced': corpus['reproduced']},
         'determinism': det,
         'all_runs_digest': '%016x' % rd,
         'components': {'real': ['athlib.highjump (working tree)', 'decimal'],
@@ -1042,6 +1046,23 @@ def main(check, tier_):
         print('HARNESS-ERROR determinism self-test diverged: %s' % det)
         return 2
     return 1 if vlines else 0
+
+
+def run_corpus(check):
+    """Directed regression: re-execute every recorded failing trace of this property."""
+    athlib = common.import_athlib()
+    out = {'replayed': 0, 'reproduced': 0, 'viols': {}}
+    for path in common.corpus_files(check):
+        rp = common.load_replay(path)
+        ops = [tuple(o) for o in rp['trace']]
+        v, ex = run_ops(athlib, check, ops)
+        out['replayed'] += 1
+        if v is not None:
+            out['reproduced'] += 1
+            out['viols'].setdefault(v.cls, {'class': v.cls, 'detail': v.detail, 'trace': ops, 'run_index': -1, 'run_seed': 0,
+                                            'digest': ex.digest(), 'config': {'corpus_file': os.path.basename(path)},
+                                            'minimised_from': len(ops)})
+    return out
 
 
 def match_known(check, v, known):
